@@ -35,8 +35,10 @@ Variants == ConjNames \cup
              "no-old", "no-nameedges", "names-always",                         \* kept / name-based bonds
              "dup-as-named", "nofallback", "fallback-nodist"}                  \* fall-back
 
+\* TLC keeps set expressions lazy (a filter is re-run at every membership test); F forces an explicit set
+F(x)      == TLCEval(x)
 Idx(s)    == 1..Len(s.atoms)
-Pairs(s)  == {p \in Idx(s) \X Idx(s) : p[1] < p[2]}
+Pairs(s)  == F({p \in Idx(s) \X Idx(s) : p[1] < p[2]})
 Norm(i, j) == IF i < j THEN <<i, j>> ELSE <<j, i>>
 At(s, i)  == s.atoms[i]
 MinOf(S)  == CHOOSE x \in S : \A y \in S : x <= y
@@ -50,8 +52,8 @@ ResKey(v, a) == << IF v = "no-mol" THEN 0 ELSE a.mol,
                    IF v = "no-icode" THEN "" ELSE a.icode,
                    IF v = "no-resname" THEN "" ELSE a.resname >>
 SameRes(s, v, i, j) == ResKey(v, At(s, i)) = ResKey(v, At(s, j))
-ResOf(s, v, i)      == {j \in Idx(s) : SameRes(s, v, i, j)}
-Residues(s, v)      == {ResOf(s, v, i) : i \in Idx(s)}
+ResOf(s, v, i)      == F({j \in Idx(s) : SameRes(s, v, i, j)})
+Residues(s, v)      == F({ResOf(s, v, i) : i \in Idx(s)})
 ResName(s, R)       == At(s, MinOf(R)).resname
 
 (* --------------------------------------------------------- reference blocks *)
@@ -67,23 +69,23 @@ NameBased(s, v, R) == NameOn(s, v) /\ HasBlock(s, ResName(s, R)) /\ (v = "dup-as
 \* ... otherwise (names allowed) it is a fall-back residue: distances only, no non-edges
 FallBack(s, v, R)  == NameOn(s, v) /\ ~NameBased(s, v, R)
 
-OldE(s, v) == IF v = "no-old" THEN {} ELSE {Norm(s.old[k][1], s.old[k][2]) : k \in DOMAIN s.old}
+OldE(s, v) == IF v = "no-old" THEN {} ELSE F({Norm(s.old[k][1], s.old[k][2]) : k \in DOMAIN s.old})
 
 PairsIn(R) == {p \in R \X R : p[1] < p[2]}
-NamedRes(s, v)    == {R \in Residues(s, v) : NameBased(s, v, R)}
-FallBackRes(s, v) == {R \in Residues(s, v) : FallBack(s, v, R)}
+NamedRes(s, v)    == F({R \in Residues(s, v) : NameBased(s, v, R)})
+FallBackRes(s, v) == F({R \in Residues(s, v) : FallBack(s, v, R)})
 \* name-based bonds: exactly the block's bonds among the atoms present (by name) in a residue bonded by names
 NameEdges(s, v) ==
   IF v = "no-nameedges" THEN {} ELSE
-  UNION { LET b == BlockOf(s, ResName(s, R)) IN {p \in PairsIn(R) : BEdge(b, At(s, p[1]).name, At(s, p[2]).name)}
-          : R \in NamedRes(s, v) }
+  F(UNION { LET b == BlockOf(s, ResName(s, R)) IN {p \in PairsIn(R) : BEdge(b, At(s, p[1]).name, At(s, p[2]).name)}
+            : R \in NamedRes(s, v) })
 \* non-edges: pairs of present atoms the block knows and does not bond
-NonEdges(s, v) ==
+NonEdges(s, v) == F(
   UNION { LET b == BlockOf(s, ResName(s, R)) IN
           {p \in PairsIn(R) : LET n1 == At(s, p[1]).name
                                   n2 == At(s, p[2]).name
                               IN n1 \in BNames(b) /\ n2 \in BNames(b) /\ n1 # n2 /\ ~BEdge(b, n1, n2)}
-          : R \in NamedRes(s, v) }
+          : R \in NamedRes(s, v) })
 
 (* ------------------------------------------------------------ distance rule *)
 Sq(x) == x * x
@@ -141,47 +143,47 @@ Failing(s, p) == FailingGiven(s, p, NonEdges(s, SPEC), OldE(s, SPEC) \cup NameEd
 (* ------------------------------------------------- declarative form (statement) *)
 \* distance bonds, given the non-edges NE and the bonds B present before distances are looked at
 DistEdgesGiven(s, v, NE, B) ==
-  LET FB == UNION {PairsIn(R) : R \in FallBackRes(s, v)}      \* pairs inside fall-back residues
-  IN IF s.dist
-     THEN {p \in Pairs(s) : Rule(s, v, p, NE, B) /\ ~(v = "nofallback" /\ p \in FB)}
-     ELSE IF v = "fallback-nodist" THEN {p \in FB : Rule(s, v, p, {}, B)}
-     ELSE {}
-DistEdges(s, v) == DistEdgesGiven(s, v, NonEdges(s, v), OldE(s, v) \cup NameEdges(s, v))
-Edges(s, v)     == OldE(s, v) \cup NameEdges(s, v) \cup DistEdges(s, v)
+  LET FB == F(UNION {PairsIn(R) : R \in FallBackRes(s, v)})      \* pairs inside fall-back residues
+  IN F(IF s.dist
+       THEN {p \in Pairs(s) : Rule(s, v, p, NE, B) /\ ~(v = "nofallback" /\ p \in FB)}
+       ELSE IF v = "fallback-nodist" THEN {p \in FB : Rule(s, v, p, {}, B)}
+       ELSE {})
+DistEdges(s, v) == DistEdgesGiven(s, v, NonEdges(s, v), F(OldE(s, v) \cup NameEdges(s, v)))
+Edges(s, v)     == F(OldE(s, v) \cup NameEdges(s, v) \cup DistEdges(s, v))
 \* bonds that carry a 'distance' attribute (name-based and guessed ones), with the squared length in pm^2
-WithD2(s, P)    == {<<p[1], p[2], D2(s, p[1], p[2])>> : p \in P}
+WithD2(s, P)    == F({<<p[1], p[2], D2(s, p[1], p[2])>> : p \in P})
 DistAttr(s, v)  == WithD2(s, NameEdges(s, v) \cup DistEdges(s, v))
 
 (* ------------------------------- operational form (order of the implementation) *)
 OpOut(s) ==
   LET NE == NonEdges(s, SPEC)                                            \* gathered in the loop over residues
-      P1 == OldE(s, SPEC) \cup NameEdges(s, SPEC)                        \* loop over residues: edges by name ...
+      P1 == F(OldE(s, SPEC) \cup NameEdges(s, SPEC))                      \* loop over residues: edges by name ...
       FB == IF s.name /\ s.dist                                          \* ... or, in the same loop, the fall-back
-            THEN {p \in UNION {PairsIn(R) : R \in FallBackRes(s, SPEC)} : Rule(s, SPEC, p, {}, P1)}
+            THEN F({p \in UNION {PairsIn(R) : R \in FallBackRes(s, SPEC)} : Rule(s, SPEC, p, {}, P1)})
             ELSE {}
-      P2 == P1 \cup FB
-      GL == IF s.dist THEN {p \in Pairs(s) : Rule(s, SPEC, p, NE, P2)} ELSE {}   \* global pass sees everything so far
-  IN [edges |-> P2 \cup GL, dist |-> WithD2(s, NameEdges(s, SPEC) \cup FB \cup GL)]
+      P2 == F(P1 \cup FB)
+      GL == IF s.dist THEN F({p \in Pairs(s) : Rule(s, SPEC, p, NE, P2)}) ELSE {}   \* global pass sees everything so far
+  IN [edges |-> F(P2 \cup GL), dist |-> WithD2(s, NameEdges(s, SPEC) \cup FB \cup GL)]
 
 (* ------------------------------------------------------------ molecule split *)
 UnitAdj(E, U, W) == U # W /\ \E p \in E : (p[1] \in U /\ p[2] \in W) \/ (p[2] \in U /\ p[1] \in W)
 RECURSIVE Close(_, _)
-Close(S, A) == LET N == S \cup {uw[2] : uw \in {x \in A : x[1] \in S}} IN IF N = S THEN S ELSE Close(N, A)
-Comps(Units, E) == LET A == {uw \in Units \X Units : UnitAdj(E, uw[1], uw[2])} IN {Close({u}, A) : u \in Units}
+Close(S, A) == LET N == F(S \cup {uw[2] : uw \in {x \in A : x[1] \in S}}) IN IF N = S THEN S ELSE Close(N, A)
+Comps(Units, E) == LET A == F({uw \in Units \X Units : UnitAdj(E, uw[1], uw[2])}) IN F({Close({u}, A) : u \in Units})
 
 MolsGiven(s, v, E) ==
   LET Units == IF v = "atomcomp" THEN {{i} : i \in Idx(s)} ELSE Residues(s, v)
-      M     == {UNION c : c \in Comps(Units, E)}
+      M     == F({UNION c : c \in Comps(Units, E)})
   IN IF v = "allone" THEN {Idx(s)}
-     ELSE IF v = "lose-isolated" THEN {m \in M : Cardinality(m) > 1}
+     ELSE IF v = "lose-isolated" THEN F({m \in M : Cardinality(m) > 1})
      ELSE M
 Molecules(s, v) == MolsGiven(s, v, Edges(s, v))
 
 \* the result of bond guessing: molecules (sets of atoms), bonds, bonds carrying a distance
 Out(s, v) == LET O == OldE(s, v)
                  N == NameEdges(s, v)
-                 D == DistEdgesGiven(s, v, NonEdges(s, v), O \cup N)
-                 E == O \cup N \cup D
+                 D == DistEdgesGiven(s, v, NonEdges(s, v), F(O \cup N))
+                 E == F(O \cup N \cup D)
              IN [mols |-> MolsGiven(s, v, E), edges |-> E, dist |-> WithD2(s, N \cup D)]
 Sensitive(s) == LET o == Out(s, SPEC) IN {v \in Variants : Out(s, v) # o}
 
